@@ -45,7 +45,8 @@ class Table:
 
     def subscript(self, ex, st, e, recv, idx):
         if recv.kind == 'obj' and recv.f.get('cls') == 'dictable' and idx.kind in ('tuple', 'colspec'):
-            ex.use('assumed contract:dictable.__getitem__(tuple of key columns / key functions) is the list of the rows\' key tuples, one per row (C01)')
+            ex.use('assumed contract:dictable.__getitem__(tuple of key columns / key functions) is the list of the rows\' key tuples, one per row (C01: proved for tuples of 1..3 '
+                   'column names, __getitem__.tuple*; assumed for key functions)')
             ks = self.key_list(recv.name)
             ex.fact(ks.t >= 0)
             return ks
